@@ -47,6 +47,8 @@ class MergeModel:
         self.W_assign = self._assign_blocks(self.W)
         self.H_assign = self._assign_blocks(self.H)
         self.creates = []  # (bb, name fn, id path)
+        self.create_ids = []  # id origins, parallel to creates
+        self.id_aliases = {}
         self.W_origins = []
         memo = {}
         for which, assigns in (("W", self.W_assign), ("H", self.H_assign)):
@@ -67,6 +69,7 @@ class MergeModel:
                     n = peel(c[2][0]) if c[2] else ("unknown", "")
                     if n[0] == "call" and n[1]:
                         self.creates.append((bi, n[1].split("::")[-1], access_path(n[2][1]) if len(n[2]) > 1 else None))
+                        self.create_ids.append(n[2][1] if len(n[2]) > 1 else None)
         # keydir entry field writes through deref_mut(entry)
         self.kd_writes = []  # (bb, field, origin)
         for bb in sorted(live):
@@ -109,12 +112,114 @@ class MergeModel:
             self.problems.append("copy loop (Iterator::next over keydir.iter_mut()) not found")
         if self.unlink_loop_next is None:
             self.problems.append("unlink loop (Iterator::next over the selection set) not found")
+        self._canon_ids()
+
+    def _canon_ids(self):
+        b = self.b
+        # a create named by the value the id variable is initialised with (`output.fileid = fileid` next to
+        # `create(datafile_name(path, fileid))` in a constructor) is named by that variable
+        paths = {c[2] for c in self.creates if c[2]}
+        # the id variable may name no create directly (`*self = Self::create(path, self.fileid + 1)`): it is what the
+        # index entry is re-pointed to
+        kdv = {access_path(o_) for bb_, fld_, o_, st_ in self.kd_writes if fld_ == "fileid"} - {None}
+        paths_v = paths | kdv
+        if len(paths_v) > 1 or any(c[2] is None for c in self.creates):
+            by_name = {}
+            for l, nm in b.local_names.items():
+                by_name.setdefault("var:%s" % nm, []).append(l)
+
+            def def_origins(vl):
+                out = []
+                for bi, si, whole in b.defs.get(vl, []):
+                    if whole and si != "T":
+                        out.append(b.origin_rvalue(b.blocks[bi]["stmts"][si]["rv"]))
+                return out
+
+            canon = {}
+            for V in sorted(paths_v):
+                for vl in by_name.get(V, []):
+                    if len(b.defs.get(vl, [])) < 2:
+                        continue
+                    for o_ in def_origins(vl):
+                        ap = access_path(o_)
+                        if ap in paths and ap != V:
+                            # the initial value must itself never change — except by being set back to the id variable
+                            if all(all(access_path(x_) == V for x_ in def_origins(xl)[1:]) for xl in by_name.get(ap, [])) and V not in canon:
+                                canon[ap] = V
+            if canon:
+                self.creates = [(bi, k, canon.get(i, i)) for bi, k, i in self.creates]
+                self.id_aliases = dict(canon)
+            # a create named by an expression (`Self::create(path, self.fileid + 1)`) that the id variable is then set to
+            paths2 = {c[2] for c in self.creates if c[2]}
+            if len(paths2) == 1 and any(c[2] is None for c in self.creates):
+                V = next(iter(paths2))
+                vdefs = [o_ for vl in by_name.get(V, []) for o_ in def_origins(vl)]
+
+                def strip(o_):
+                    o_ = peel_var(o_)
+                    return o_
+
+                fixed = []
+                for (bi, k, i), io in zip(self.creates, self.create_ids):
+                    if i is None and io is not None and any(strip(d_) == strip(io) for d_ in vdefs):
+                        i = V
+                    fixed.append((bi, k, i))
+                self.creates = fixed
+
+    def forward_entry_reads(self, o, use_bb):
+        """o with reads of the index entry's fields that were re-pointed earlier in the same iteration replaced by
+        the value written (`entry.len = n; … offset += entry.len` adds n): valid when the one write of that field
+        dominates the use and reaches it without passing the loop head"""
+        b = self.b
+        writes = {}
+        for bb, fld, wo, st in self.kd_writes:
+            writes.setdefault(fld, []).append((bb, wo))
+        fw = {}
+        for fld, ws in writes.items():
+            if len(ws) != 1:
+                continue
+            wb, wo = ws[0]
+            if use_bb in reach(b, [0], blocked_blocks={wb}):
+                continue  # not dominated by the write
+            heads = {self.copy_loop_next} if self.copy_loop_next is not None else set()
+            if use_bb != wb and use_bb not in reach(b, [e.dst for e in b.succ[wb] if e.kind != "unwind"], blocked_edges=lambda e: e.kind == "unwind", blocked_blocks=heads):
+                continue
+            fw[fld] = wo
+
+        def rw(x, d=0):
+            if d > 30 or not isinstance(x, tuple) or not x:
+                return x
+            k = x[0]
+            if k == "field" and x[2] in fw:
+                base = x[1]
+                while base[0] in ("clone", "cast") or (base[0] == "call" and base[1] and base[1].split("::")[-1] in ("deref", "deref_mut") and base[2]):
+                    base = base[1] if base[0] in ("clone", "cast") else base[2][0]
+                if base[0] == "var" and base[1] == self.entry_var:
+                    return fw[x[2]]
+            if k in ("field", "variant", "index", "cast", "discr", "clone", "try", "promoted", "payload"):
+                return (k, rw(x[1], d + 1)) + tuple(x[2:])
+            if k == "var" and x[3] is not None:
+                return (k, x[1], x[2], rw(x[3], d + 1))
+            if k == "call":
+                return (k, x[1], [rw(a, d + 1) for a in x[2]]) + tuple(x[3:])
+            if k == "agg":
+                return (k, x[1], x[2], x[3], {kk: rw(v, d + 1) for kk, v in x[4].items()}) + tuple(x[5:])
+            if k == "bin":
+                return (k, x[1], rw(x[2], d + 1), rw(x[3], d + 1)) + tuple(x[4:])
+            if k == "un":
+                return (k, x[1], rw(x[2], d + 1)) + tuple(x[3:])
+            return x
+
+        return rw(o) if fw else o
 
     @staticmethod
     def slot_of(o):
         """a writer slot: a local variable (its index), or a field of a local struct ((index, field name))"""
         while o[0] in ("clone", "cast"):
             o = o[1]
+        # a writer moved into another variable (a `self` taken by value) is still that writer
+        while o[0] == "var" and o[3] is not None and o[3][0] == "var":
+            o = o[3]
         if o[0] == "var":
             return o[1]
         if o[0] == "field" and o[1][0] == "var":
@@ -252,18 +357,33 @@ def p4_merge_per_entry_order(ctx):
     # offset variable: the origin of the `pos` write
     pos_writes = [(bb, o) for bb, fld, o, st in m.kd_writes if fld == "pos"]
     offv = None
+    posread_at = None  # (block, statement) where the offset is read into a copy, when entry.pos is stored from a copy
     if len(pos_writes) == 1 and peel_var(pos_writes[0][1])[0] == "var":
-        offv = pos_writes[0][1][1] if pos_writes[0][1][0] == "var" else None
+        o_ = pos_writes[0][1]
+        # `let pos = offset; offset += n; entry.pos = pos`: the running offset is the variable that was copied
+        while o_[0] == "var" and o_[3] is not None and o_[3][0] == "var":
+            o_ = o_[3]
+        offv = o_[1] if o_[0] == "var" else None
+        if offv is not None and o_ is not pos_writes[0][1]:
+            # where the running offset is read: the definition of the copy that is stored into entry.pos
+            c_ = pos_writes[0][1]
+            while c_[0] == "var" and c_[3] is not None and c_[3][0] == "var" and c_[3] is not o_:
+                c_ = c_[3]
+            cds = [d_ for d_ in b.defs.get(c_[1], []) if d_[2] and d_[1] != "T"]
+            if len(cds) >= 1:
+                posread_at = {(bi_, si_) for bi_, si_, _ in cds}
     inc_blocks, reset_blocks = set(), set()
+    inc_idx = {}
     if offv is not None:
         for bi, si, whole in b.defs.get(offv, []):
             if not whole or si == "T" or bi not in b.live_blocks():
                 continue
-            o = b.origin_rvalue(b.blocks[bi]["stmts"][si]["rv"])
+            o = m.forward_entry_reads(b.origin_rvalue(b.blocks[bi]["stmts"][si]["rv"]), bi)
             if const_int(o) == 0:
                 reset_blocks.add(bi)
             elif origin_mentions(o, lambda x: x[0] == "call" and x[3] == (b.path, cbb)) and origin_mentions(o, lambda x: x[0] == "var" and x[1] == offv) and "Add" in origin_str(o):
                 inc_blocks.add(bi)
+                inc_idx[bi] = si
             else:
                 r.unrec(f, "assignment to the running output offset", where(b, bi), "offset := %s (neither 0 nor offset + copied length)" % origin_str(o))
     W_new = {bi for bi, si in m.W_assign}
@@ -273,6 +393,10 @@ def p4_merge_per_entry_order(ctx):
         out = []
         if bb in kd_blocks:
             out.append("kd:" + ",".join(kd_blocks[bb]))
+        pr = [si_ for bi_, si_ in (posread_at or ()) if bi_ == bb]
+        if pr:
+            # in one block with the advance: statement order decides
+            out.append("posread" if not (bb in inc_idx and inc_idx[bb] < min(pr)) else "posread-late")
         if bb in inc_blocks:
             out.append("inc")
         if bb in reset_blocks:
@@ -288,7 +412,7 @@ def p4_merge_per_entry_order(ctx):
                 out.append("copied")
             if bb == m.copy_loop_next and e.kind == "ret":
                 out.append("iter")
-        return sorted(out, key=lambda x: {"kd": 0, "inc": 1, "reset": 1, "newW": 1}.get(x.split(":")[0], 2))
+        return sorted(out, key=lambda x: {"kd": 0, "posread": 0, "inc": 1, "posread-late": 1.5, "reset": 1, "newW": 1}.get(x.split(":")[0], 2))
 
     def delta(s, ev):
         copied, clean, posr, adv, fresh, offzero, hinted = s
@@ -311,7 +435,10 @@ def p4_merge_per_entry_order(ctx):
             if not clean:
                 return "!%s while the copied bytes are still buffered in the data writer (a concurrent get, or recovery after a kill, would read past the end of the file)" % what
             if ev.startswith("kd:") and "pos" in ev.split(":")[1].split(","):
-                if adv:
+                if posread_at is not None:
+                    if not posr:
+                        return "!entry.pos is stored from a copy of the running offset that was not taken in this iteration"
+                elif adv:
                     return "!entry.pos is taken from the running offset after it was advanced (points at the end of the entry)"
                 posr = True
             if ev == "hint":
@@ -321,6 +448,10 @@ def p4_merge_per_entry_order(ctx):
                     return "!hint record appended after the outputs were switched: it lands in the hint file of the NEXT output although the entry lives in the previous one"
                 hinted = True
             return (copied, clean, posr, adv, fresh, offzero, hinted)
+        if ev in ("posread", "posread-late"):
+            if adv or ev == "posread-late":
+                return "!entry.pos is taken from the running offset after it was advanced (points at the end of the entry)"
+            return (copied, clean, True, adv, fresh, offzero, hinted)
         if ev == "inc":
             return (copied, clean, posr, True, fresh, False, hinted)
         if ev == "reset":
@@ -367,6 +498,15 @@ def p4_merge_per_entry_order(ctx):
             pe = fo
             good = fo is not None and fo[0] == "field" and fo[2] == fld and fo[1][0] == "var" and fo[1][1] == m.entry_var
             # or the very value the entry's field was re-pointed to in this iteration (`len: nbytes`)
+            def root_(x):
+                # `let pos = offset;` is the offset as it was there
+                while x is not None and x[0] == "var" and x[3] is not None and x[3][0] == "var":
+                    x = x[3]
+                return x
+            if not good and fo is not None and fld in by and fo != by[fld] and root_(fo) == root_(by[fld]) and root_(fo)[0] == "var" and root_(fo)[3] is None:
+                fo = root_(fo)
+                by = dict(by)
+                by[fld] = fo
             if not good and fo is not None and fld in by and fo == by[fld]:
                 good = True
                 if fo[0] == "var" and fo[3] is None:
@@ -383,7 +523,12 @@ def p4_merge_per_entry_order(ctx):
                                     good = False
             r.add(f, "hint.%s = entry.%s" % (fld, fld), good, where(b, hbb), origin_str(fo) if fo else "missing")
         ko = ho[4].get("key")
-        good = ko is not None and bool(origin_mentions(ko, lambda x: x[0] == "call" and x[1] and x[1].split("::")[-1] == "key" and x[2] and x[2][0][0] == "var" and x[2][0][1] == m.entry_var))
+        good = ko is not None and bool(origin_mentions(ko, lambda x: x[0] == "call" and x[1] and x[1].split("::")[-1] in ("key", "pair", "pair_mut") and x[2] and x[2][0][0] == "var" and x[2][0][1] == m.entry_var))
+        if not good and ko is not None and m.entry_var is not None:
+            # `let (key, entry) = guard.pair_mut();`: key and entry come out of the same call
+            eo = b.origin_local(m.entry_var)
+            sites = {x[3] for x in origin_mentions(eo, lambda x: x[0] == "call" and x[1] and x[1].split("::")[-1] in ("pair", "pair_mut"))}
+            good = bool(sites) and bool(origin_mentions(ko, lambda x: x[0] == "call" and x[3] in sites))
         r.add(f, "hint.key = entry key", good, where(b, hbb), origin_str(ko) if ko else "missing")
     return r
 
@@ -581,6 +726,12 @@ def p5_merge_outputs_before_unlink(ctx):
         ao = peel_var(arg_origin(b, rt, 1))
         idp = [i for bb, k, i in m.creates if k == "datafile_name"]
         s = origin_str(ao)
+        if None in idp:
+            r.unrec(f, "P16: id the outputs are named by", short_span(b.span), "an output file is named by an expression, not by the id variable")
+            idp = [i for i in idp if i is not None]
+        for x_, v_ in m.id_aliases.items():
+            # a variable that is set back to the id variable after the loop stands for it
+            s = s.replace(x_, v_)
         good = bool(idp) and all(("var:" + i.split("var:")[-1]) in s or i in s for i in idp) and "Add" in s and "const 1" in s
         r.add(f, "P16: new active id = last output id + 1", good, where(b, rbb), s)
         # rotation only after the unlink loop finished (a failed merge keeps the old active file)
@@ -645,7 +796,8 @@ def s7_s8_merge_sets(ctx):
     for _, bb, t in calls_in([b], "storage::bitcask::log::LogStatistics::add_live"):
         o = arg_origin(b, t, 0)
         ents = origin_mentions(o, lambda x: x[0] == "call" and x[1] == "dashmap::DashMap::entry")
-        good = bool(ents) and all(access_path(e[2][1]) in ids for e in ents)
+        # (`stats.entry(entry.fileid)` right after `entry.fileid = id` is keyed by id)
+        good = bool(ents) and all(access_path(m.forward_entry_reads(e[2][1], e[3][1])) in ids for e in ents)
         r.add(f, "S7: copied entry counted live on the output's id", good, where(b, bb), origin_str(o))
         # the accounting entry is looked up per copied entry (after the copy, in the same iteration):
         # a lookup hoisted out of the loop keeps counting on the first output after a rollover
